@@ -253,6 +253,10 @@ type gen struct {
 	tfeat                                           map[string][]string
 	inputRank                                       map[string]int
 	complete                                        map[string]bool // input objects whose fields are all generated
+	// astralOK: the default being generated belongs to an input value whose type is nullable at the
+	// top, so a string with a code point above U+FFFF may occur in it (open finding F-10b: the printed
+	// literal does not parse; losing a nullable position's default cannot change a verdict)
+	astralOK bool
 }
 
 var descPool = []string{"", "", "a description", "multi\nline", "with \"quotes\" and \\ backslash", "ünïcödé ✓", " ", "x"}
@@ -368,7 +372,9 @@ func (g *gen) inputVal(name string, allowed []string, rank int) InputVal {
 		}
 	}
 	if !selfish && g.r.Chance(1, 2) {
+		g.astralOK = !iv.Type.nonNull()
 		v := g.value(iv.Type, 0, true)
+		g.astralOK = false
 		iv.Def = &v
 	}
 	return iv
@@ -377,7 +383,7 @@ func (g *gen) inputVal(name string, allowed []string, rank int) InputVal {
 var stringPool = []string{"", "plain", "with \"quotes\"", "back\\slash", "new\nline", "tab\there", "cr\rlf\n", "ünï ✓ 日本", " sep ", "<html>&amp;", "\x00\x01\x1f\x7f", "\b\f", "\\u0041", "\"\"\"", "#not a comment", "\ufeffbom", "\ufffd", "{a: 1}", "$var", "end\\"}
 
 func (g *gen) str() string {
-	if g.o.AstralStrings && g.r.Chance(1, 3) {
+	if (g.o.AstralStrings && g.r.Chance(1, 3)) || (g.astralOK && g.r.Chance(1, 10)) {
 		return hx.Pick(g.r, []string{"😀", "a𝄞b", "\U0010ffff"})
 	}
 	if g.r.Chance(1, 4) {
@@ -438,7 +444,7 @@ func (g *gen) value(t TRef, depth int, top bool) Val {
 		v := Val{K: "obj", O: []ObjField{}}
 		for _, f := range in.Inputs {
 			switch {
-			case f.Def != nil && g.r.Chance(1, 2):
+			case f.Def != nil && g.r.Chance(1, 2) && (g.astralOK || !hasAstral(*f.Def)):
 				// omitted in the literal: coercion fills in the field's default
 				v.O = append(v.O, ObjField{Name: f.Name, V: *f.Def})
 			case !f.Type.nonNull() && f.Def == nil && (g.r.Chance(1, 2) || depth > 3):
